@@ -242,45 +242,44 @@ def rule_listings(ctx: Ctx) -> None:
     ctx.require(loops, "C05.5: get_open no longer iterates self._open_items")
     lp = loops[0]
     item = lp.target.id if isinstance(lp.target, ast.Name) else None
-    allowed = {f"{item}.is_open", "new_open_items is not None"}
-
-    def guard_terms(node: ast.AST) -> List[str]:
-        terms: List[str] = []
-        for a in A.ancestors(node):
-            if a is lp:
-                break
-            if isinstance(a, ast.If):
-                t = a.test
-                parts = t.values if isinstance(t, ast.BoolOp) and isinstance(t.op, ast.And) else [t]
-                terms.extend(ast.unparse(p) for p in parts)
-        return terms
+    from .. import norm as N
+    # the rebuilt list: the local that replaces self._open_items after the loop, and the appends that fill it
+    swap = [s for s in A.stores(go) if A.dotted(s.target) == "self._open_items" and isinstance(s.node, (ast.Assign, ast.AnnAssign))]
+    rebuilt = A.dotted(swap[0].node.value) if swap else None
     ys = [n for n in ast.walk(lp) if isinstance(n, ast.Yield)]
-    apps = [c for c in A.calls(lp, shallow=False) if (A.call_name(c) or "") == "new_open_items.append"]
-    ctx.require(ys and apps, "C05.5: get_open lost its yield / re-index append")
-    yt = guard_terms(ys[0])
-    ctx.check(f"{item}.is_open" in yt, "C05.5", "only items that are open are yielded", go, A.stmt_of(ys[0]), f"guards {yt}",
+    apps = [c for c in A.calls(lp, shallow=False) if rebuilt and (A.call_name(c) or "") == f"{rebuilt}.append"]
+    ctx.require(ys and apps and swap, "C05.5: get_open lost its yield / re-index append / swap")
+    head = g.nodes_for(lp)[0]
+    yn, an = g.nodes_for(A.stmt_of(ys[0]))[0], g.nodes_for(A.stmt_of(apps[0]))[0]
+
+    def mentions_item(t: str) -> bool:
+        return any(isinstance(x, ast.Name) and x.id == item for x in ast.walk(ast.parse(t, mode="eval")))
+
+    def classify(conds):
+        """-> (is_open required?, pass-level flag terms, per-item terms other than is_open)"""
+        open_ok = any(t == f"{item}.is_open" and v for t, v, _ in conds)
+        flags = sorted({(N.canon(N.expand(go, ast.parse(t, mode="eval").body)), v) for t, v, _ in conds if not mentions_item(t)})
+        extra = sorted({(t, v) for t, v, _ in conds if mentions_item(t) and t != f"{item}.is_open"})
+        return open_ok, flags, extra
+    y_open, _, y_extra = classify(g.path_conditions(head, yn))
+    ctx.check(y_open, "C05.5", "only items that are open are yielded", go, A.stmt_of(ys[0]), "item.is_open holds on every path to the yield",
               "closed items can be yielded as open")
-    for node, what in ((apps[0], "kept by the re-index"),):
-        terms = guard_terms(node)
-        extra = [t for t in terms if t not in allowed]
-        ctx.check(not extra and f"{item}.is_open" in terms, "C05.5", f"every item that is still open is {what}", go, A.stmt_of(node),
-                  f"guarded only by {sorted(set(terms))}", f"whether an open item is {what} also depends on {extra}: open orders that fail "
-                  "that extra condition during a re-index pass silently drop out of the open list (never processed or listed again)")
-    post_terms: List[str] = []
-    for a in A.ancestors(apps[0]):
-        if a is lp:
-            break
-        if isinstance(a, ast.If) and A.seq(a) > A.seq(A.stmt_of(ys[0])):
-            t_ = a.test
-            post_terms.extend(ast.unparse(p_) for p_ in (t_.values if isinstance(t_, ast.BoolOp) and isinstance(t_.op, ast.And) else [t_]))
-    ctx.check(A.seq(A.stmt_of(apps[0])) > A.seq(A.stmt_of(ys[0])) and f"{item}.is_open" in post_terms, "C05.5",
-              "an item is kept iff it is still open after the consumer handled it", go, A.stmt_of(apps[0]), "append after the yield, re-testing is_open",
-              "the re-index keeps items without re-testing is_open after the yield")
-    swap = [s for s in A.stores(go) if A.dotted(s.target) == "self._open_items"]
-    oks = bool(swap) and A.seq(swap[0].stmt) > A.seq(lp) and not A.is_within(swap[0].stmt, lp) \
-        and any(isinstance(a, ast.If) and ast.unparse(a.test) == "new_open_items is not None" for a in A.ancestors(swap[0].stmt))
-    ctx.check(oks, "C05.5", "the rebuilt list replaces the old one only after the whole pass", go, swap[0].stmt if swap else go.node,
-              "swap after the loop", "the open list is swapped inside the loop / unconditionally")
+    a_conds = g.path_conditions(head, an)
+    a_open, a_flags, a_extra = classify(a_conds)
+    ctx.check(a_open and not a_extra, "C05.5", "every item that is still open is kept by the re-index", go, A.stmt_of(apps[0]),
+              f"kept under item.is_open and the pass-level flag(s) {a_flags}", f"whether an open item is kept by the re-index also depends on {a_extra}: "
+              "open orders that fail that extra condition during a re-index pass silently drop out of the open list (never processed or listed again)")
+    # the is_open test that guards the append is evaluated after the consumer handled the item
+    post = [c_ for c_ in g.path_conditions(yn, an) if c_[0] == f"{item}.is_open" and c_[1]]
+    ctx.check(bool(post) and an in g.reach([yn], labels=C.NO_EXC), "C05.5", "an item is kept iff it is still open after the consumer handled it", go,
+              A.stmt_of(apps[0]), "append after the yield, re-testing is_open", "the re-index keeps items without re-testing is_open after the yield")
+    # the swap happens after the whole pass, under exactly the flag(s) that enabled the appends
+    sn = g.nodes_for(swap[0].stmt)[0]
+    _, s_flags, s_extra = classify(g.path_conditions(g.entry, sn))
+    oks = not A.is_within(swap[0].stmt, lp) and A.seq(swap[0].stmt) > A.seq(lp) and s_flags == a_flags and bool(s_flags) and not s_extra
+    ctx.check(oks, "C05.5", "the rebuilt list replaces the old one only after the whole pass, and only when it was being rebuilt", go, swap[0].stmt,
+              f"swap after the loop under {s_flags}", f"the open list is swapped inside the loop, unconditionally, or under {s_flags} while items were "
+              f"collected under {a_flags}")
     add = ctx.func(f"{CONT}.add")
     src = ast.unparse(add.node)
     ctx.check("self._items[item.id] = item" in src and "if item.is_open:" in src and "self._open_items.append(item)" in src, "C05.5",
